@@ -320,6 +320,18 @@ def standard_proof_obligations(run, module, theorems, allowed_axioms=()):
     run.oblige("no Admitted/Axiom/Parameter/guard switches in coq/", not hits, "; ".join(hits[:5]))
     if hits:
         broken.append(("forbidden vernacular", "\n".join(hits)))
+    if run.tier == "thorough":
+        # the independent checker re-checks the compiled property file and everything it depends on
+        rc, out, dt = sh(["coqchk", "-o", "-silent", "-Q", COQ, "CE", "CE.Properties.%s" % module], cwd=COQ, timeout=3000)
+        m = re.search(r"\* Axioms:(.*?)\n\s*\n", out, re.S)
+        axioms = m.group(1).strip() if m else "?"
+        clean = rc == 0 and axioms == "<none>" and "type-in-type: <none>" in out and "unsafe (co)fixpoints: <none>" in out \
+            and "positivity is assumed: <none>" in out
+        run.oblige("coqchk -o on Properties/%s: no axioms, no type-in-type, no unsafe fixpoints, no assumed positivity" % module, clean,
+                   "axioms: %s (%.0f s)" % (axioms, dt))
+        run.cov["coqchk_s"] = round(dt, 1)
+        if not clean:
+            broken.append(("coqchk Properties/%s" % module, out[-1500:]))
     return broken
 
 
